@@ -13,15 +13,24 @@ tool = ks.build_tool("globcheck")
 d = common.scratch("c17-")
 
 
+NATOMS = 3 if tier == "quick" else 4
+ASLICES = 4 if tier == "quick" else 32
+
+
 def one(slice_no):
     cfg = os.path.join(d, "glob-%d.cfg" % slice_no)
-    open(cfg, "w").write("SPECIFICATION Spec\nCONSTANTS\n  MaxLen = %d\n  Slice = %d\n  NSlices = %d\nCHECK_DEADLOCK FALSE\n" % (MAXLEN, slice_no, NSLICES))
+    if slice_no < NSLICES:
+        module = "MC_Glob"
+        open(cfg, "w").write("SPECIFICATION Spec\nCONSTANTS\n  MaxLen = %d\n  Slice = %d\n  NSlices = %d\nCHECK_DEADLOCK FALSE\n" % (MAXLEN, slice_no, NSLICES))
+    else:   # patterns composed of atoms (MC_GlobAtoms.tla): constructs meeting constructs beyond the exhaustive length bound
+        module = "MC_GlobAtoms"
+        open(cfg, "w").write("SPECIFICATION Spec\nCONSTANTS\n  NAtoms = %d\n  Slice = %d\n  NSlices = %d\nCHECK_DEADLOCK FALSE\n" % (NATOMS, slice_no - NSLICES, ASLICES))
     table = os.path.join(d, "table-%d.txt" % slice_no)
     wd = common.scratch("tlc-glob-")
     import shutil
     shutil.copy(cfg, wd)
-    res = common.run_tlc("MC_Glob", cfg=os.path.basename(cfg), workdir=wd, workers=1, heap="2g", timeout=1500, stdout_path=table)
-    common.tlc_ok(res, "MC_Glob slice %d" % slice_no)
+    res = common.run_tlc(module, cfg=os.path.basename(cfg), workdir=wd, workers=1, heap="2g", timeout=1500, stdout_path=table)
+    common.tlc_ok(res, "%s slice %d" % (module, slice_no))
     p = subprocess.run([tool], stdin=open(table), stdout=subprocess.PIPE, stderr=subprocess.PIPE, text=True, timeout=1500)
     os.remove(table)
     if p.returncode != 0:
@@ -38,7 +47,7 @@ def one(slice_no):
 tot = {"rows": 0, "pairs": 0, "fails": 0, "unspecified_pairs": 0, "keys_checked": 0}
 samples = []
 with concurrent.futures.ThreadPoolExecutor(max_workers=16) as ex:
-    for fails, summ in ex.map(one, range(NSLICES)):
+    for fails, summ in ex.map(one, range(NSLICES + ASLICES)):
         if summ is None:
             common.die_infra("no summary from globcheck")
         for k in tot:
@@ -57,4 +66,4 @@ cov = {"states": tot["rows"], "transitions": tot["pairs"], "traces_validated_aga
        "explanation": "states = table rows (patterns) evaluated by TLC, transitions = (pattern, subject) pairs; every row replayed on util.PattenMatch and on KEYS"}
 v.finish(tier, "model_checking", cov, ["the documented grammar as transcribed in spec/Glob.tla (meta-properties checked by TLC ASSUMEs)",
                                        "constructs the grammar does not settle (\"U\") only require termination without panic",
-                                       "exhaustive up to pattern length %d / subject length 3 over the metacharacter alphabet; longer patterns are not explored" % MAXLEN])
+                                       "exhaustive up to pattern length %d / subject length 3 over the metacharacter alphabet; beyond that, every concatenation of 2..%d of 16 atoms (literal, ?, *, sets, negated sets, ranges, escapes)" % (MAXLEN, NATOMS)])
